@@ -49,6 +49,10 @@ class Obligation:
     expect_refuted: bool = False   # canary: must be refuted
     timeout_ms: int = 20000
     source: str = ''               # file:line span of the real code
+    restricted: Optional[list] = None    # extra assumptions = the formal restriction of the known finding
+    realizability: list = field(default_factory=list)   # true facts (UNIQUE constraints...) only added when
+                                                        # the core query is satisfiable, to exclude models
+                                                        # that no real database realises
 
 
 @dataclass
@@ -60,6 +64,7 @@ class Result:
     model: dict = field(default_factory=dict)
     solver_output: str = ''
     vacuous: Optional[bool] = None
+    z3model: Any = None
 
 
 def _model_to_dict(m: z3.ModelRef, consts) -> dict:
@@ -117,10 +122,17 @@ def discharge(ob: Obligation, use_cvc5: bool = True, check_vacuity: bool = True)
     ms = (time.time() - t0) * 1000
     if r == z3.unsat:
         return Result(ob, 'discharged', 'z3', ms, vacuous=vac)
+    if ob.realizability and r != z3.unsat:
+        for a in ob.realizability:
+            s.add(a)
+        r = s.check()
+        ms = (time.time() - t0) * 1000
+        if r == z3.unsat:
+            return Result(ob, 'discharged', 'z3', ms, vacuous=vac)
     if r == z3.sat:
         m = s.model()
         return Result(ob, 'refuted', 'z3', ms, model=_model_to_dict(m, ob.model_vars),
-                      solver_output='sat', vacuous=vac)
+                      solver_output='sat', vacuous=vac, z3model=m)
     reason = s.reason_unknown()
     if use_cvc5:
         try:
@@ -172,6 +184,8 @@ class Session:
         self.bounded: list[dict] = []
         self.violations: list[dict] = []
         self.known_hits: list[str] = []
+        self.known_obligations: list[str] = []
+        self.restricted_discharged = 0
         self.undecided: list[str] = []
         self.errors: list[str] = []
         self.functions: set[str] = set()
@@ -244,22 +258,38 @@ class Session:
 
     def _violation(self, res: Result):
         ob = res.ob
+        fid = ob.finding
+        known = bool(fid and fid in self.findings and self.findings[fid].get('status') == 'open')
+        if known:
+            f = self.findings[fid]
+            # the recorded finding: expected failure of the *unrestricted* obligation; the restricted one
+            # (finding's restriction conjoined) must be discharged, otherwise this is a new violation
+            if ob.restricted is not None:
+                r2 = discharge(Obligation(ob.name + ':restricted', ob.prop, ob.kind,
+                                          list(ob.assumptions) + list(ob.restricted), ob.goal,
+                                          timeout_ms=ob.timeout_ms, realizability=ob.realizability))
+                self.solver_ms += r2.ms
+                if r2.verdict == 'discharged':
+                    self.restricted_discharged += 1
+                elif r2.verdict == 'refuted':
+                    known = False      # fails even under the finding's restriction: a different violation
+                else:
+                    self.undecided.append(f'{ob.name}:restricted: {r2.solver_output}')
+        if known:
+            if fid not in self.known_hits:
+                self.known_hits.append(fid)
+                print(self.findings[fid]['line'])
+            self.known_obligations.append(ob.name)
+            self.results.pop()           # not counted as an obligation of the proof
+            return
         rep = {}
         if ob.replay is not None:
             try:
-                rep = ob.replay(res.model) or {}
+                rep = ob.replay(res) or {}
             except Exception as exc:   # replay harness failure is not a counterexample
                 rep = {'reproduced': False, 'replay_error': ''.join(
                     traceback.format_exception_only(type(exc), exc)).strip()}
         reproduced = bool(rep.get('reproduced'))
-        fid = ob.finding
-        if fid and fid in self.findings and self.findings[fid].get('status') == 'open':
-            f = self.findings[fid]
-            # the recorded finding: expected failure of the *unrestricted* obligation
-            self.known_hits.append(fid)
-            print(f['line'])
-            self.results.pop()           # not counted as an obligation of the proof
-            return
         REPLAYS.mkdir(exist_ok=True)
         path = REPLAYS / f"{self.prop}-{_slug(ob.name)}.json"
         payload = {
@@ -325,6 +355,8 @@ class Session:
             'bounded': self.bounded,
             'bounded_note': 'bounded stand-ins are never counted in obligations/discharged',
             'known_findings': self.known_hits,
+            'known_finding_obligations': self.known_obligations[:200],
+            'known_finding_restricted_discharged': self.restricted_discharged,
             'undecided': self.undecided,
             'canaries': self.canaries,
             'canaries_refuted': self.canaries_refuted,
